@@ -112,6 +112,13 @@ def _build(case):
             cents.append(pts[j % n].copy())
         elif mode == "origin":
             cents.append(np.zeros(d))
+        elif mode in ("near-prev", "same-as-prev") and cents:
+            # a centre displaced from the previous one by 1e-6 (a finite-difference stencil) or identical to it:
+            # every column is the moment about ITS centre
+            step = np.zeros(d)
+            if mode == "near-prev":
+                step[j % d] = 1e-6
+            cents.append(cents[-1] + step)
         else:
             cents.append(rc)
     cents = np.array(cents, dtype=float).reshape(len(cents), d)
@@ -270,7 +277,7 @@ def _moments_strategy():
                 "dseed": st.integers(0, 2**32 - 1),
                 "scale": st.sampled_from([1.0, 1.0, 0.1, 3.0]),
                 "wmode": st.sampled_from(["pos", "signed"]),
-                "cmodes": st.lists(st.sampled_from(["rand", "rand", "gridpoint", "origin"]), min_size=1, max_size=4),
+                "cmodes": st.lists(st.sampled_from(["rand", "rand", "gridpoint", "origin", "near-prev", "same-as-prev"]), min_size=1, max_size=4),
                 "order": st.integers(lo, 6),
                 "np_int": st.booleans(),
                 "axis_pts": st.one_of(
